@@ -106,13 +106,19 @@ Slices(lo, l, fk, lk) ==   \* sequence of slices for levels l..NL, starting from
 SliceFiles(l, s) == {levels[l][i] : i \in (s.lb + 1)..s.ub}
 
 \* expand_compaction: walk from the upper level up to the lower level, adding files that lie
-\* wholly inside the window; the window becomes the hull of what was added
-RECURSIVE Expand(_, _, _, _, _)
-Expand(inputs, lo, l, fk, lk) ==
+\* wholly inside the window; the window becomes the hull of what was added.  As repaired (31b6007) a file
+\* joins only if everything it overlaps in the deeper levels of the compaction is an input too
+\* ("ExpandAddsUncoveredSst" in Dev: as found, containment in the window was enough).
+KeysOverlap(a, b) == ~(LK(a) < FK(b) \/ LK(b) < FK(a))
+CoveredBelow(id, l, up, inputs) ==
+  \A m \in (l + 1)..up : \A o \in SeqToSet(levels[m]) : KeysOverlap(id, o) => o \in inputs
+RECURSIVE Expand(_, _, _, _, _, _)
+Expand(inputs, lo, l, fk, lk, up) ==
   IF l < lo THEN inputs
-  ELSE LET add == {id \in SeqToSet(levels[l]) : fk <= FK(id) /\ LK(id) <= lk /\ id \notin inputs}
-       IN IF add = {} \/ Cardinality(inputs) > MaxInputs THEN Expand(inputs, lo, l - 1, fk, lk)
-          ELSE Expand(inputs \cup add, lo, l - 1, MinOf({FK(id) : id \in add}), MaxOf({LK(id) : id \in add}))
+  ELSE LET add == {id \in SeqToSet(levels[l]) : /\ fk <= FK(id) /\ LK(id) <= lk /\ id \notin inputs
+                                                  /\ ("ExpandAddsUncoveredSst" \in Dev \/ CoveredBelow(id, l, up, inputs))}
+       IN IF add = {} \/ Cardinality(inputs) > MaxInputs THEN Expand(inputs, lo, l - 1, fk, lk, up)
+          ELSE Expand(inputs \cup add, lo, l - 1, MinOf({FK(id) : id \in add}), MaxOf({LK(id) : id \in add}), up)
 
 \* find_best_compaction: one candidate per upper level, up to and including the first level whose
 \* slice is empty; each candidate holds the slices of all levels lo..up
@@ -125,7 +131,7 @@ Candidates(lo) ==
                  stop == IF empties = {} THEN Len(sl) ELSE MinOf(empties)
              IN { LET base == UNION {SliceFiles(lo + j - 1, sl[j]) : j \in 1..i}
                   IN [lo |-> lo, up |-> lo + i - 1, fk |-> sl[i].fk, lk |-> sl[i].lk,
-                      inputs |-> Expand(base, lo, lo + i - 1, sl[i].fk, sl[i].lk), base |-> base]
+                      inputs |-> Expand(base, lo, lo + i - 1, sl[i].fk, sl[i].lk, lo + i - 1), base |-> base]
                   : i \in 2..stop }
            : st \in starts }
 
@@ -241,6 +247,22 @@ ReadsAtAnyTsKept ==
 \* reads at any timestamp equal the history as long as nothing was garbage collected
 ReadAtAnyTs == gcd = {} => \A k \in Keys, t \in 1..MaxWrites :
                  Visible(MechLoad(mem, levels, files, k, t)) = Visible(Newest(all, k, t))
+
+\* every selectable compaction takes, with each input, everything that input overlaps in the deeper levels it spans
+\* (otherwise newer entries end up below older ones of the same key)
+LevelOf(id) == CHOOSE l \in 1..NL : id \in SeqToSet(levels[l])
+CompactionSafe(c) == \A id \in c.inputs : CoveredBelow(id, LevelOf(id), c.up, c.inputs)
+SelectableSafe == \A c \in Selectable : CompactionSafe(c)
+
+\* The shape of the tree at which the expand_compaction defect showed on the real store (10.14 of DESIGN.md),
+\* abstracted to three keys and four levels: level 2 holds {1@7} and {2@6}, level 3 {1@5} and {2@4, 3@3}, level 4
+\* {1@2, 2@1}.  From here only compactions can happen (all writes used up).  A compaction started from {1@7} is
+\* widened to keys 1..2 by the level-4 file; as found, expand then adds {2@6} although {2@4, 3@3} stays behind.
+E3(k, t) == [k |-> k, ts |-> t, v |-> t]
+WitnessInit == /\ mem = {} /\ gcd = {} /\ seq = 7 /\ nf = 5 /\ reopens = 0 /\ h = <<>>
+               /\ files = (1 :> {E3(1, 7)}) @@ (2 :> {E3(2, 6)}) @@ (3 :> {E3(1, 5)}) @@ (4 :> {E3(2, 4), E3(3, 3)}) @@ (5 :> {E3(1, 2), E3(2, 1)})
+               /\ levels = <<<<>>, <<1, 2>>, <<3, 4>>, <<5>>>>
+               /\ all = {E3(1, 7), E3(2, 6), E3(1, 5), E3(2, 4), E3(3, 3), E3(1, 2), E3(2, 1)}
 
 EmitLine == Emit => PrintT(<<"HISTORY", ToJson([ops |-> h])>>)
 =============================================================================
